@@ -1,5 +1,5 @@
 """What each check claims (feeds MANIFEST.json)."""
-HOOK_COMMITS = []
+HOOK_COMMITS = ["bfa525d"]
 TB = ("Trusted base: TLC 1.8, the TLA+ modules under /verif/spec (L1 is written from README/NOTE/property text, independently of the Go code), "
       "the dumb Go harness (rendering, JSON codecs, DeepEqual), Go toolchain. Exhaustive only inside the stated scopes; beyond them seeded sampling.")
 GEN = "explicit TLA+ specification; TLC enumerates/simulates cases with their specified meaning; cases replayed into the real code (spec -> impl conformance)"
